@@ -2,6 +2,7 @@ import EtVerif.Props.C18
 import EtVerif.Props.TrC18
 import EtVerif.Props.TrC01
 import EtVerif.Props.TrGo05
+import EtVerif.Props.TrSrc
 #print axioms EtVerif.C18.runs_spec
 #print axioms EtVerif.C18.ft_empty
 #print axioms EtVerif.C18.ft_length
@@ -62,3 +63,10 @@ import EtVerif.Props.TrGo05
 #print axioms EtVerif.TrGo05.go_flatTail_update_stats
 #print axioms EtVerif.TrGo05.go_flatTail_reached_iff
 #print axioms EtVerif.TrGo05.go_flatTail_update_ranking_top
+-- basic.Compute translated TOGETHER WITH the convergence checker translated from the source (no hand-written checker
+-- in between) refines the model, under the oracle hypotheses about sqrt on sums of squares
+#print axioms EtVerif.TrSrc.compute_src_refines_ok_partial
+#print axioms EtVerif.TrSrc.compute_src_refines_err_partial
+#print axioms EtVerif.TrSrc.compute_src_refuses_validation
+#print axioms EtVerif.TrSrc.oracleOK_of_forall
+#print axioms EtVerif.TrSrc.go_compute_src_distribution
